@@ -20,6 +20,8 @@ import (
 	"github.com/go-python/gpython/zzverif/harness"
 
 	_ "github.com/go-python/gpython/zzverif/engines/lifecycle"
+	_ "github.com/go-python/gpython/zzverif/engines/compiledet"
+	_ "github.com/go-python/gpython/zzverif/engines/scope"
 )
 
 type propCfg struct {
@@ -32,6 +34,8 @@ type propCfg struct {
 }
 
 var props = map[string]propCfg{
+	"C03": {Engines: []string{"scope"}, QuickRuns: 6000, QuickSecs: 60, ThoroughRuns: 400000, ThoroughSecs: 1200, Level: "exploration"},
+	"C18": {Engines: []string{"compiledet"}, QuickRuns: 4000, QuickSecs: 60, ThoroughRuns: 400000, ThoroughSecs: 1200, Level: "exploration"},
 	"C09": {Engines: []string{"lifecycle"}, QuickRuns: 40000, QuickSecs: 40, ThoroughRuns: 3000000, ThoroughSecs: 900, Level: "exploration"},
 }
 
